@@ -116,8 +116,8 @@ def readLinkname (pkgPath : Text) (comment : Text) : Read :=
     | [_, localName, extName] =>
       if localName == extName then .ignored
       else
-        let (extPkg, extName') := splitExt extName
-        .link { reference := ⟨pkgPath, localName⟩, implementation := ⟨extPkg, extName'⟩ }
+        .link { reference := ⟨pkgPath, localName⟩,
+                implementation := ⟨(splitExt extName).1, (splitExt extName).2⟩ }
     | _ => .usage
 
 /-! ### `ParseGoLinknames` — the decision for one comment -/
